@@ -99,6 +99,7 @@ def gen_values(rng: random.Random, fam: str, n: int):
 
 FAMS = ["small_int", "small_int", "dyadic", "unit", "mixed", "offset", "equal", "equal", "two_level",
         "ulp_spread", "tiny", "extreme"]
+QUANTITIES = [("Duration", "s"), ("Duration", "min"), ("Duration", "h"), ("Length", "km"), ("SI", "m"), ("Speed", "km/h")]
 BAD_OBS = [float("nan"), "3.0", None, L.HUGE_INT, -L.HUGE_INT, [1.0], float("inf"), float("-inf"), True]
 
 
@@ -115,6 +116,7 @@ def gen_tally_case(rng: random.Random, idx: int, long_n: int = 0):
     ops = []
     p_init = 0.0 if long_n else rng.choice([0.0, 0.0, 0.05, 0.15])
     p_bad = 0.002 if long_n else rng.choice([0.0, 0.05, 0.2])
+    p_qty = 0.0 if long_n else rng.choice([0.0, 0.0, 0.0, 0.1, 0.4])
     for v in vals:
         if rng.random() < p_init:
             ops.append({"op": "init"})
@@ -124,7 +126,12 @@ def gen_tally_case(rng: random.Random, idx: int, long_n: int = 0):
                 b = None
             ops.append({"op": "reg" if variant[0] == "Tally" or rng.random() < 0.5 else "notify", "v": L.enc(b)})
         how = "reg" if variant[0] == "Tally" or rng.random() < 0.7 else "notify"
-        ops.append({"op": how, "v": L.enc(v)})
+        if rng.random() < p_qty and not isinstance(v, bool):
+            # a Quantity is a float subclass: it counts with its si-value (register takes float(value), as notify does)
+            qc, qu = QUANTITIES[rng.randrange(len(QUANTITIES))]
+            ops.append({"op": how, "v": L.qenc(qc, float(v), qu)})
+        else:
+            ops.append({"op": how, "v": L.enc(v)})
     if not long_n and rng.random() < 0.3:
         ops.append({"op": "init"})
         if rng.random() < 0.5:
@@ -149,7 +156,8 @@ def gen_counter_case(rng: random.Random, idx: int):
         if r < 0.08:
             ops.append({"op": "init"})
         elif r < 0.2:
-            ops.append({"op": "reg", "v": L.enc(rng.choice([1.0, 2.5, "1", None, float("nan")]))})
+            b = rng.choice([1.0, 2.5, "1", None, float("nan"), "quantity"])
+            ops.append({"op": "reg", "v": L.qenc("Duration", 1.0, "s") if b == "quantity" else L.enc(b)})
         else:
             v = rng.choice([1, 1, -1, 0, True, rng.randint(-50, 50), rng.randint(-10 ** 30, 10 ** 30)])
             ops.append({"op": "reg" if variant[0] == "Counter" or rng.random() < 0.7 else "notify", "v": L.enc(v)})
@@ -229,7 +237,7 @@ def run_tally_case(case):
             except Exception as exc:  # noqa
                 rec["kind"] = type(exc).__name__
         else:
-            v = L.dec(op["v"])
+            v = L.dec_impl(op["v"])
             rec["pre"] = snap_key(snap_tally(t, alphas[:1]))
             try:
                 if op["op"] == "notify":
@@ -269,9 +277,9 @@ def run_counter_case(case):
             if op["op"] == "init":
                 c.initialize()
             elif op["op"] == "notify":
-                c.notify(Event(StatEvents.DATA_EVENT, L.dec(op["v"])))
+                c.notify(Event(StatEvents.DATA_EVENT, L.dec_impl(op["v"])))
             else:
-                c.register(L.dec(op["v"]))
+                c.register(L.dec_impl(op["v"]))
         except Exception as exc:  # noqa
             rec["kind"] = type(exc).__name__
         if col is not None:
@@ -449,13 +457,14 @@ def oracle_tally(case, steps):
         if rec["kind"] != ek:
             if ek == "ok":
                 who = "eventbased-tally" if case["cls"] != "Tally" else "tally"
-                what = "initialize" if op["op"] == "init" else f"{op['op']}({v!r})"
+                what = "initialize" if op["op"] == "init" else f"{op['op']}({L.show(op['v'])})"
                 sub = {"none": "", "all": " with subscribers attached", "one": " with one subscriber attached"}[case["subs"]]
-                return (f"{who}-register-raises-{rec['kind']}",
+                qty = "quantity-" if op["op"] != "init" and "q" in op["v"] else ""
+                return (f"{who}-register-{qty}raises-{rec['kind']}",
                         f"{case['cls']}.{what}{sub} raised {rec['kind']} on a valid observation "
                         f"(observation #{len(eff) + 1} since the last initialize)", i), False
             return ("tally-invalid-observation-not-rejected",
-                    f"{case['cls']}.{op['op']}({L.dec(op['v'])!r}) ended with {rec['kind']}, expected {ek}", i), False
+                    f"{case['cls']}.{op['op']}({L.show(op['v'])}) ended with {rec['kind']}, expected {ek}", i), False
         if op["op"] == "init":
             eff = []
             polluted = False
@@ -465,7 +474,7 @@ def oracle_tally(case, steps):
         elif ek != "ok":
             if rec["pre"] != rec["post"]:
                 return ("tally-rejected-observation-changes-state",
-                        f"{op['op']}({L.dec(op['v'])!r}) was rejected with {ek} but a getter changed: {rec['pre']} -> {rec['post']}", i), False
+                        f"{op['op']}({L.show(op['v'])}) was rejected with {ek} but a getter changed: {rec['pre']} -> {rec['post']}", i), False
             if rec["pub"]:
                 return ("eventbased-tally-publishes-on-rejected", f"rejected observation published {len(rec['pub'])} events", i), False
         else:
@@ -655,7 +664,7 @@ def shrink_case(case, sig):
 def describe_ops(case):
     out = []
     for op in case["ops"]:
-        out.append("initialize()" if op["op"] == "init" else f"{op['op']}({L.dec(op['v'])!r})")
+        out.append("initialize()" if op["op"] == "init" else f"{op['op']}({L.show(op['v'])})")
     return out
 
 
